@@ -44,11 +44,11 @@ CLAUSE = {
             "P_hostComp", "P_weight", "no_shutdown", "remaining_not_zero", "P_remaining", "returned_before_spec_done",
             "recv_pc", "endwait_pc", "assign_pc", "migrate_pc", "migrate_nothing_to_do", "migrate_host_not_migrant",
             "migrate_to_exhausted_component", "plan_pc", "flush_pc", "assign_other_component",
-            "assign_missing_distance_key", "P_inconsistent_indexes", "ChannelsDrained"},
+            "assign_missing_distance_key", "P_inconsistent_indexes", "ChannelsDrained", "P_dsHost_lost"},
     "C04": {"assign_source_not_available", "source_lacks_dataset", "needed_after_purge", "fetch_source_lacks_dataset",
             "purge_under_unanswered_command", "purge_before_consumers_done", "purge_before_delivery",
             "transmit_failure_not_held", "command_after_purge_at_data_server", "flush_fetches_differ",
-            "flush_purges_extra", "P_dsHost", "P_purgeQ_extra", "P_fetchQ_extra", "event_abort"},
+            "flush_purges_extra", "P_dsHost_phantom", "P_purgeQ_extra", "P_fetchQ_extra", "event_abort"},
 }
 
 
